@@ -198,9 +198,12 @@ class Typer:
             env[a.kwarg.arg] = T(("dict", EMPTY, self.ann(a.kwarg.annotation, f.module)))
         if isinstance(f.node, ast.Lambda):
             return env
-        for _ in range(2):
+        for i in range(4):
+            before = dict(env) if i >= 2 else None
             for n in own_nodes(f.node):
                 self._bind_stmt(f, n, env)
+            if before is not None and before == env:
+                break  # bindings are visited in tree order, not in data-flow order: iterate until nothing is learnt
         return env
 
     def _bind(self, env, target: ast.expr, t: frozenset) -> None:
